@@ -43,6 +43,14 @@ CHECKS = {
    technique="exhaustive enumeration of a constructed JSON message space through the real codec, expected value for every case",
    text="Every in/out message kind with optional fields present / absent / null, SDP strings covering every control and Latin-1 character, U+2028, non-BMP and 60 KiB, identifiers with every byte value at every position, each as text and as binary WebSocket message, must round-trip; serialised identifiers must be 20 characters <= U+00FF; hand-built identifier strings of every length 0..=40 over {'a','é','Ā','𝕊'} raw and escaped are accepted exactly when 20 characters <= U+00FF.",
    note="serde_json (encode) and simd-json (decode) are used exactly as the tracker and client do."),
+ "C02": dict(level="exploration", engine="enum", ref="§3 C02",
+   technique="exhaustive enumeration of swarm sizes x limits x requested counts x requester positions x every outcome of the two random offsets (scripted RNG / seed sweep with measured full coverage) through the real selection code",
+   text="For n = 0..=40 (thorough 64) stored peers, 13 configured maxima, negative / zero / small / boundary / huge requested counts, requester absent and at first / middle-1 / middle / last position, insertion order and removal-permuted order, both families: UDP TorrentMaps::announce, HTTP handle_announce_request and WS extract_response_peers are called for every (offset_one, offset_two) outcome and the returned list is checked to be distinct, members only, requester-free, within the limit, complete when the torrent is small and at least limit-1 (WS: exactly limit) otherwise.",
+   note="n > 64 not explored; requester-present cases use boundary offsets (selection runs after the requester's removal); HTTP/WS use a scripted generator calibrated against the real sampling, UDP a seed sweep whose pair coverage is measured (incomplete coverage = exit 2)."),
+ "C12": dict(level="exploration", engine="enum", ref="§3 C12",
+   technique="exhaustive enumeration of all byte strings up to length 2-3 and of the complete single-step mutation space of a corpus of valid messages through the real parsers and handlers, in a child process with tracker-sized stacks and a counting allocator",
+   text="18 parser entry points (UDP request x 4 limits, UDP replies, HTTP request / path / socket-level parse with and without proxy header, bencode replies, JSON in/out as text and binary, peer-id client, access-list line) x (every byte string of length <= 2; every truncation, 1-4 byte extension, single-bit flip, single-byte substitution by all 256 values, deletion and duplication of ~45 valid messages; 627 structural extremes incl. nesting to 32768 and 64 KiB strings), plus 34k extreme-field requests through the real UDP / HTTP / WS handlers x limits {0,1,2,default} x swarm sizes. No panic (overflow checks on), no process death, allocation <= 64 x len + 64 KiB.",
+   note="Two-step mutations and inputs longer than the corpus messages are not enumerated; Connection::read_request's documented panic on a missing proxy header is out of scope."),
 }
 
 NOT_YET = {}
